@@ -529,6 +529,26 @@ def r095(eng, rep, regs, func_row) -> None:
 
 def stateless(eng, rep, rule: str, funcs) -> None:
     """No function in `funcs` writes an object that outlives the call (self.*, closure or module state)."""
+    # state that is scoped to one pass: `self.A` is rebound to a fresh empty container before a `try:` whose `finally:` rebinds
+    # it again (restore / clear).  What is stored there cannot be seen by a later pass.
+    scoped = set()
+    for f in funcs:
+        body = list(walk_local(f.node))
+        for i_, st in enumerate(body):
+            if not isinstance(st, ast.Try) or not st.finalbody:
+                continue
+            fin = {norm(t) for b in st.finalbody for n in ast.walk(b) if isinstance(n, ast.Assign) for t in n.targets}
+            for a in fin:
+                if not a.startswith("self."):
+                    continue
+                # a fresh binding of the same attribute somewhere before the try in this function
+                for n in body:
+                    if isinstance(n, ast.Assign) and n.lineno <= st.lineno:
+                        tg, vs = n.targets[0], n.value
+                        pairs = list(zip(tg.elts, vs.elts)) if isinstance(tg, ast.Tuple) and isinstance(vs, ast.Tuple) and len(tg.elts) == len(vs.elts) else [(tg, vs)]
+                        for t_, v_ in pairs:
+                            if norm(t_) == a and (isinstance(v_, (ast.Dict, ast.List, ast.Set)) and not getattr(v_, "keys", None) and not getattr(v_, "elts", None) or (isinstance(v_, ast.Call) and dotted(v_.func) in ("dict", "list", "set") and not v_.args)):
+                                scoped.add(a)
     for f in funcs:
         loc = f.local_names()
         ps = {p.arg for p in f.params}
@@ -546,6 +566,10 @@ def stateless(eng, rep, rule: str, funcs) -> None:
         for n in walk_local(f.node):
             if isinstance(n, (ast.Global, ast.Nonlocal)):
                 bad.append((norm(n, 40), ",".join(n.names)))
+        pass_scoped = [(txt, root) for txt, root in bad if any(txt.startswith(a + "[") or txt.startswith(a + " =") or (", " + a + " =") in txt or ("= (" + a) in txt or txt.startswith(a + ".") for a in scoped)]
+        for txt, root in pass_scoped:
+            rep.undecided(rule, f.file, f.qual, txt, "state on the verifier that is made fresh at the start of a pass and rebound in a `finally:`; that nothing reads it outside that pass is not decided")
+        bad = [b for b in bad if b not in pass_scoped]
         for txt, root in bad:
             rep.violation(rule, f.file, f.qual, txt, "verification keeps state between calls ('%s' outlives the call): a verdict can be computed from an earlier state of the schema or of the check set" % root)
         if not bad:
